@@ -763,7 +763,7 @@ fn truth_pool() -> Vec<V> {
 }
 
 /// (name, template with `$`, expected as function of truthiness; None = bool(string literal set))
-const CONTEXTS: [&str; 16] = [
+const CONTEXTS: [&str; 18] = [
     "$ ? 1 : 2",
     "!$",
     "!!$",
@@ -780,6 +780,9 @@ const CONTEXTS: [&str; 16] = [
     "$ || vf",
     "vt && $",
     "vf || ($ ? 1 : 2) == 1",
+    // predicates of macros over a MAP receiver
+    "{'k': 1}.filter(x, $)",
+    "{'k': 1}.map(x, $, 7)",
 ];
 
 fn ctx_expected(ctx: &str, truthy: bool) -> V {
@@ -787,6 +790,8 @@ fn ctx_expected(ctx: &str, truthy: bool) -> V {
         "$ ? 1 : 2" => V::Int(if truthy { 1 } else { 2 }),
         "!$" => V::Bool(!truthy),
         "[1].filter(x, $)" => V::List(if truthy { vec![V::Int(1)] } else { vec![] }),
+        "{'k': 1}.filter(x, $)" => V::List(if truthy { vec![V::s("k")] } else { vec![] }),
+        "{'k': 1}.map(x, $, 7)" => V::List(if truthy { vec![V::Int(7)] } else { vec![] }),
         "[1].map(x, $, 7)" => V::List(if truthy { vec![V::Int(7)] } else { vec![] }),
         _ => V::Bool(truthy),
     }
